@@ -64,7 +64,13 @@ def rule_s2(chk: Check) -> None:
                 for c in calls(other.node):
                     if dotted(c.func) == f"self.{fi.node.name}":
                         a = c.args[idx] if idx < len(c.args) else next((k.value for k in c.keywords if k.arg == pn), None)
-                        bound.add(dotted(a) if a is not None else None)
+                        d_ = dotted(a) if a is not None else None
+                        if isinstance(a, ast.Name):
+                            # a local the caller also stores on self (`self.x = local`) is that attribute
+                            tgt = {dotted(t) for st in walk(other.node) if isinstance(st, ast.Assign) and isinstance(st.value, ast.Name) and st.value.id == a.id for t in st.targets if (dotted(t) or "").startswith("self.")}
+                            if len(tgt) == 1:
+                                d_ = tgt.pop()
+                        bound.add(d_)
             if len(bound) == 1 and (next(iter(bound)) or "").startswith("self.") and pn not in alias:
                 alias[pn] = next(iter(bound))
 
